@@ -19,7 +19,7 @@ RULE = (
     'sign of gain*gear, other dofs bit-identical, constant beyond the range, sum of single-actuator documents. Non-trivial: '
     'nu >= 1 and an actuator with a range or a bias. Distinct: hash of (topology, actuators, rounded q, qd, ctrl).')
 ASSUMPTIONS = ['MuJoCo is the reference for oracle A', 'gain > 0 (kp, kv > 0) as generated; the sign of the slope is the sign of gear']
-TOLERANCES = {'vs_mujoco': 1e-9, 'additivity': 1e-12, 'saturation': 0.0, 'unactuated_dof': 0.0}
+TOLERANCES = {'vs_mujoco': 1e-9, 'additivity': 1e-12, 'saturation': 1e-12, 'locality': 1e-12, 'unactuated_dof': 0.0}
 FLOORS = {'two_actuators_one_joint': 0.3, 'actuator_on_slide': 0.3, 'actuator_range_or_bias': 0.5}
 PROFILE = modelgen.profile(limits='some', max_bodies=5)
 
@@ -103,10 +103,11 @@ def check(case, ctx=None):
     # constant beyond the control range
     for j, r in ranged:
       if k > 3:
-        if not np.array_equal(tau[2], _with(tt, ctrl[2], j, r[1], q[2], qd[2], jp)):
-          raise Violation('saturation', f'actuator {j}: force changes beyond the upper control bound')
-        if not np.array_equal(tau[3], _with(tt, ctrl[3], j, r[0], q[3], qd[3], jp)):
-          raise Violation('saturation', f'actuator {j}: force changes beyond the lower control bound')
+        # 1e-12 relative, not bitwise: the two evaluations run with different batch sizes (last-bit differences)
+        for row, bound, name in ((2, r[1], 'upper'), (3, r[0], 'lower')):
+          at = _with(tt, ctrl[row], j, bound, q[row], qd[row], jp)
+          if not np.all(np.abs(tau[row] - at) <= 1e-12 * (1 + np.abs(at))):
+            raise Violation('saturation', f'actuator {j}: force changes beyond the {name} control bound: {tau[row].tolist()} vs {at.tolist()}')
     # monotone in each control; other dofs untouched
     i = k - 1
     for j, a in enumerate(spec['acts']):
@@ -118,7 +119,7 @@ def check(case, ctx=None):
         raise Violation('monotone', f'actuator {j} ({a["kind"]}, gear {a["gear"]}): raising its control moved the joint force '
                         f'from {lo[dof]!r} to {hi[dof]!r}')
       rest = [x for x in range(nv) if x != dof]
-      if not np.array_equal(lo[rest], hi[rest]):
+      if not np.all(np.abs(lo[rest] - hi[rest]) <= 1e-12 * (1 + np.abs(hi[rest]))):
         raise Violation('locality', f'actuator {j}: changing its control changed another dof')
     # additivity: separate single-actuator documents
     if nu >= 2:
